@@ -129,6 +129,8 @@ func tlsDevMutator(d tlsDev, r *mon.RNG, pki *tlsPKI, changed *bool, hitType *by
 				repl = append(repl, orig)
 			case "prepend-appdata":
 				repl = [][]byte{wrapRec(ref.RecAppData, ver, []byte("GET / HTTP/1.0\r\n\r\n")), orig}
+			case "prepend-empty-record-of-type":
+				repl = [][]byte{wrapRec(byte(d.arg), ver, nil), orig}
 			case "prepend-unknown-rectype":
 				repl = [][]byte{wrapRec(byte(d.arg), ver, []byte{1, 2, 3}), orig}
 			case "replace-sslv2":
@@ -336,6 +338,9 @@ func runC15TLS(c *Ctx, pki *tlsPKI) {
 				add("prepend-warnings", 6, 0)
 				add("prepend-warnings", 20, 0)
 				add("prepend-appdata", 0, 0)
+				for _, rt := range []int{int(ref.RecAppData), int(ref.RecAlert), int(ref.RecCCS)} {
+					add("prepend-empty-record-of-type", rt, 0)
+				}
 				for _, rt := range []int{24, 0, 255} {
 					add("prepend-unknown-rectype", rt, 0)
 				}
